@@ -177,12 +177,11 @@ class Parser(object):
             )
 
     def _is_type_sizer_compatible(self, typename):
-        if typename in {type_ + width for type_ in 'ui' for width in ['8', '16', '32', '64']}:
-            return True
-        elif typename in self.typedecls and isinstance(self.typedecls[typename], model.Typedef):
-            return self._is_type_sizer_compatible(self.typedecls[typename].type_name)
-        else:
-            return False
+        seen = set()
+        while typename not in seen and isinstance(self.typedecls.get(typename), model.Typedef):
+            seen.add(typename)
+            typename = self.typedecls[typename].type_name
+        return typename in {type_ + width for type_ in 'ui' for width in ['8', '16', '32', '64']}
 
     def p_specification(self, t):
         '''specification : definition_list'''
